@@ -56,6 +56,7 @@ def st_interval(thorough):
         count=counts, special=st.lists(st.sampled_from(SPECIAL_TYPES), max_size=3),
         baddest=st.integers(0, 2), event=st.sampled_from([None, None, "connect", "ready", "leave", "setname", "accept", "accept"]),
         dt=st.sampled_from([2.0, 2.0, 0.95, 2.0, 6.0, 1.05]),
+        deaf=st.sampled_from([0, 0, 1]),
     ))
 
 
@@ -83,6 +84,11 @@ class StatsWorld:
             self.mon2 = self._connect(92, pid=912)
             self._send(self.mon2, P.MT_SUBSCRIBE, P.SUBSCRIBE.pack(P.MT_TIMING_MESSAGE), src=92)
             self._send(self.mon2, P.MT_SUBSCRIBE, P.SUBSCRIBE.pack(P.MT_MESSAGE_TRAFFIC), src=92)
+            # a third subscriber of the two reports, which is sometimes outside the writable snapshot when they are sent: the
+            # FAILED_MESSAGE notices about the reports it misses are ordinary forwarded messages (the monitor sees and counts them)
+            self.mon3 = self._connect(93, pid=913)
+            self._send(self.mon3, P.MT_SUBSCRIBE, P.SUBSCRIBE.pack(P.MT_TIMING_MESSAGE), src=93)
+            self._send(self.mon3, P.MT_SUBSCRIBE, P.SUBSCRIBE.pack(P.MT_MESSAGE_TRAFFIC), src=93)
             self.mon2_reports = []
             self.mon_reports = []
             self.pump()
@@ -156,6 +162,11 @@ class StatsWorld:
             if t == P.MT_TIMING_MESSAGE and fr.src_mod_id == 0:
                 self.on_timing(fr)
             elif t == P.MT_MESSAGE_TRAFFIC and fr.src_mod_id == 0:
+                if not self.traffic_frames:
+                    # the report covers what the monitor saw before its first frame; what is forwarded while the report goes
+                    # out (notices about subscribers that miss it) belongs to the next interval
+                    self.traffic_cut = Counter(self.seen_traffic)
+                    self.seen_traffic = Counter()
                 self.traffic_frames.append(fr)
             elif t == P.MT_ACKNOWLEDGE and fr.src_mod_id == 0:
                 continue
@@ -223,25 +234,32 @@ class StatsWorld:
                 self.viol("traffic/type-not-seen", f"MESSAGE_TRAFFIC seqno {seqno} attributes {c} messages to type {t} which was not seen")
         self.reports_checked += 1
 
-    def report(self, dt, check=True, accept_only=False):
+    def report(self, dt, check=True, accept_only=False, deaf=False):
         """A quiet manager round (nothing ready) with the clock advanced: periodic reports fire."""
         self.checking = check
         self.traffic_frames = []
         self.got_timing = False
-        before_traffic = Counter(self.seen_traffic)
-        n_timing_before = sum(v for t, v in self.seen_timing.items() if 0 <= t < 10000)
+        self.traffic_cut = None
+        pending = sum(self.seen_traffic.values())
         self.el_timing += dt
         self.el_traffic += dt
+        writable = [c for c in self.sim.conns if not (deaf and c is getattr(self, "mon3", None))]
         if accept_only:
             # the only thing ready in the report round is the listening socket (a new connection is waiting)
             self.sim.open()
-            self.sim.step([LISTENER], list(self.sim.conns), dt)
+            self.sim.step([LISTENER], writable, dt)
+        elif deaf:
+            # a writable snapshot is only taken in a round that serves something: one publisher has a message ready in the
+            # report round.  The manager forwards (and counts) it before the reports go out, the monitor sees it before them.
+            p = self.pubs[1]
+            self._send(p, 4242, b"", src=p.mod_id)
+            pending += 1
+            self.sim.step([p], writable, dt)
         else:
-            self.sim.step([], list(self.sim.conns), dt)
+            self.sim.step([], writable, dt)
         self.alive()
         # frames of the report round: TIMING first, then TRAFFIC, then (maybe) ACTIVE_CLIENTS + CLIENT_INFO,
-        # which already belong to the next interval
-        self.seen_traffic = Counter()
+        # which already belong to the next interval (observe() cuts the traffic interval at the first MESSAGE_TRAFFIC frame)
         self.observe()
         fired = dict(timing=self.got_timing, traffic=bool(self.traffic_frames))
         if check and self.mon2_reports != self.mon_reports:
@@ -256,16 +274,14 @@ class StatsWorld:
             self.el_timing = 0.0
         if self.traffic_frames:
             if check:
-                self.check_traffic(self.traffic_frames, before_traffic)
+                self.check_traffic(self.traffic_frames, self.traffic_cut)
             self.el_traffic = 0.0
         else:
-            if check and self.el_traffic > 1.0 + 1e-9 and sum(before_traffic.values()):
+            if check and self.el_traffic > 1.0 + 1e-9 and pending:
                 self.viol("traffic/no-report", f"no MESSAGE_TRAFFIC although {self.el_traffic:.2f} s elapsed and "
-                          f"{sum(before_traffic.values())} messages were forwarded in the interval")
+                          f"{pending} messages were forwarded in the interval")
             if self.el_traffic > 1.0 + 1e-9:
                 self.el_traffic = 0.0  # the manager restarts its interval even when there is nothing to report
-                before_traffic = Counter()
-            self.seen_traffic = before_traffic + self.seen_traffic
         return fired
 
     # ---- one interval --------------------------------------------------------------------------
@@ -323,7 +339,9 @@ class StatsWorld:
                 self.pump()
         self.pump()
         ndist = len({t for t, _, _ in jobs})
-        fired = self.report(iv["dt"], accept_only=(ev == "accept"))
+        fired = self.report(iv["dt"], accept_only=(ev == "accept"), deaf=bool(iv.get("deaf")))
+        if res is not None and iv.get("deaf"):
+            res.count("report-rounds-with-an-unwritable-report-subscriber")
         if res is not None:
             res.count("intervals")
             res.count(f"distinct-types-{iv['k']}")
